@@ -233,7 +233,9 @@ class VariationalWassersteinDistance(darsia.EMD):
             self.face_weights = np.ones(self.grid.num_faces, dtype=float)
             """np.ndarray: face weights"""
         else:
-            self.cell_weights = self.weight.img
+            # NOTE: Use floats; integer-typed weights (e.g. 8-bit label images) would
+            # wrap around when squared.
+            self.cell_weights = self.weight.img.astype(float)
             self.face_weights = self._harmonic_average(self.cell_weights)
 
     def _setup_discretization(self) -> None:
